@@ -143,6 +143,19 @@ func adam(f func(ConstVector) (MagicScalar, error), x0 ConstVector, step_size, b
 
 /* -------------------------------------------------------------------------- */
 
+// check the values of the step size and stopping parameters
+func checkParameters(step_size StepSize, epsilon Epsilon, maxIterations MaxIterations, hasHook bool) error {
+  if !(step_size.Value > 0.0) {
+    return fmt.Errorf("Adam(): step size must be positive (got %v)", step_size.Value)
+  }
+  // with a finite number of iterations epsilon <= 0 simply means `run all
+  // iterations', otherwise nothing would ever stop the algorithm
+  if !(epsilon.Value > 0.0) && maxIterations.Value == int(^uint(0) >> 1) && !hasHook {
+    return fmt.Errorf("Adam(): epsilon must be positive if neither MaxIterations nor a Hook is given (got %v)", epsilon.Value)
+  }
+  return nil
+}
+
 func Run(f interface{}, x0 Vector, args ...interface{}) (Vector, error) {
 
   hook          := Hook         {nil  }
@@ -172,6 +185,9 @@ func Run(f interface{}, x0 Vector, args ...interface{}) (Vector, error) {
     default:
       panic("Adam(): Invalid optional argument!")
     }
+  }
+  if err := checkParameters(step_size, epsilon, maxIterations, hook.Value != nil); err != nil {
+    return nil, err
   }
   switch a := f.(type) {
   case func(ConstVector) (MagicScalar, error):
@@ -208,6 +224,9 @@ func RunGradient(f interface{}, x0 ConstVector, args ...interface{}) (ConstVecto
     default:
       panic("Adam(): Invalid optional argument!")
     }
+  }
+  if err := checkParameters(step_size, epsilon, maxIterations, hook.Value != nil); err != nil {
+    return nil, err
   }
   switch a := f.(type) {
   case DenseGradientF:
